@@ -307,7 +307,7 @@ def _reshape(v, shape):
 
 
 def gen(tier, rng, allowed):
-    n_tie, n_oracle = (90, 700) if tier == 'quick' else (1200, 8000)
+    n_tie, n_oracle = (90, 700) if tier == 'quick' else (600, 8000)
     cases = []
     for i in range(n_tie + n_oracle):
         c = gen_case(rng, tier, allowed)
